@@ -393,7 +393,10 @@ HttpHeader::skipUpdateHeader(const Http::HdrType id) const
     return
         // TODO: Consider updating Vary headers after comparing the magnitude of
         // the required changes (and/or cache losses) with compliance gains.
-        (id == Http::HdrType::VARY);
+        (id == Http::HdrType::VARY) ||
+        // RFC 9111 section 3.2: a 304 has no content; its Content-Length (often
+        // "0") must not replace the length of the stored body.
+        (id == Http::HdrType::CONTENT_LENGTH);
 }
 
 void
